@@ -14,6 +14,50 @@ type Mutex struct {
 	m     sync.Mutex
 	held  bool
 	owner int // scheduler thread id + 1 of the holder (deadlock cycle reporting)
+	rel   relSites
+}
+
+// relSites: where a lock instance is released from and whether TryLock is used on it (see
+// "Release points" in sched.go).
+type relSites struct {
+	tried bool
+	n     uint8
+	pcs   [6]uintptr
+}
+
+// release is called (two frames below the caller of Unlock) before the lock is given up.
+//
+//go:noinline
+func (r *relSites) release(x *sched.Exec, obj any) {
+	if !sched.TrySeen() {
+		return // nobody uses TryLock in this process: a switch inside a critical section is unobservable
+	}
+	pc := sched.CallerPC(2)
+	if r.tried {
+		sched.AddUnlockSite(pc)
+	} else {
+		known := false
+		for i := uint8(0); i < r.n; i++ {
+			known = known || r.pcs[i] == pc
+		}
+		if !known {
+			if int(r.n) == len(r.pcs) {
+				sched.AllUnlockPoints()
+			} else {
+				r.pcs[r.n] = pc
+				r.n++
+			}
+		}
+	}
+	x.UnlockPointAt(obj, pc)
+}
+
+func (r *relSites) try() {
+	sched.NoteTryLock()
+	r.tried = true
+	for i := uint8(0); i < r.n; i++ {
+		sched.AddUnlockSite(r.pcs[i])
+	}
 }
 
 // Owner returns the scheduler thread holding the mutex, or -1.
@@ -29,7 +73,8 @@ func (m *Mutex) Lock() {
 }
 
 func (m *Mutex) Unlock() {
-	if sched.Cur() != nil {
+	if x := sched.Cur(); x != nil {
+		m.rel.release(x, m)
 		m.held = false
 		m.owner = 0
 	}
@@ -38,6 +83,7 @@ func (m *Mutex) Unlock() {
 
 func (m *Mutex) TryLock() bool {
 	if x := sched.Cur(); x != nil {
+		m.rel.try()
 		x.Point("TryLock", m, func() bool { return true })
 		if m.held {
 			return false
@@ -56,6 +102,7 @@ type RWMutex struct {
 	pending bool // a writer has announced itself and waits for the active readers to leave
 	readers int
 	owner   int
+	rel     relSites
 }
 
 // Owner returns the scheduler thread holding the write lock, or -1.
@@ -83,7 +130,8 @@ func (m *RWMutex) Lock() {
 }
 
 func (m *RWMutex) Unlock() {
-	if sched.Cur() != nil {
+	if x := sched.Cur(); x != nil {
+		m.rel.release(x, m)
 		m.writer = false
 		m.owner = 0
 	}
@@ -99,7 +147,8 @@ func (m *RWMutex) RLock() {
 }
 
 func (m *RWMutex) RUnlock() {
-	if sched.Cur() != nil {
+	if x := sched.Cur(); x != nil {
+		m.rel.release(x, m)
 		m.readers--
 	}
 	m.m.RUnlock()
@@ -107,6 +156,7 @@ func (m *RWMutex) RUnlock() {
 
 func (m *RWMutex) TryLock() bool {
 	if x := sched.Cur(); x != nil {
+		m.rel.try()
 		x.Point("TryLock", m, func() bool { return true })
 		if m.writer || m.pending || m.readers > 0 {
 			return false
@@ -121,6 +171,7 @@ func (m *RWMutex) TryLock() bool {
 
 func (m *RWMutex) TryRLock() bool {
 	if x := sched.Cur(); x != nil {
+		m.rel.try()
 		x.Point("TryRLock", m, func() bool { return true })
 		if m.writer || m.pending {
 			return false
